@@ -16,7 +16,6 @@ from . import core, tok
 ID = "C02"
 DRIVER = "zone"
 COQ_TARGETS = ["Properties/C02.vo"]
-THEOREMS = []  # filled from THEOREMS_ALL below
 RULE = ("cases: zones of <= 12 records over labels {a,b,c}, depth <= 4 (records, NS, CNAME, CNAME next to other data, "
         "wildcards incl. wildcard NS/CNAME, empty non-terminals, NS at the apex, duplicates, TTLs around the SOA minimum), "
         "root and non-root apex, authoritative and not, optionally merged from two zones; questions to depth 5 over the same "
@@ -32,6 +31,7 @@ SOA_T, NS_T, CNAME_T, A_T, TXT_T, MX_T, AAAA_T = tok.SOA, tok.NS, tok.CNAME, tok
 QTYPES = [tok.A, tok.NS, tok.CNAME, tok.SOA, tok.TXT, tok.MX, tok.ANY, tok.AXFR, tok.MAILB, tok.MAILA, 999]
 SPECIAL_Q = (tok.AXFR, tok.MAILB, tok.MAILA)
 LOOKUPS = [0]
+RESULT_STATS = {}
 
 CORPUS = os.path.join(core.VERIF, "corpus", "C02")
 
@@ -316,6 +316,10 @@ def kind(case, model):
         return "Z" + flags + ":" + model.split(":")[0]
     head = model.split("#")[0]
     res = [r for r in head.split("|") if r]
+    for r in res:
+        k = "answer-empty" if r.startswith("A_") else {"A": "answer", "C": "cname", "D": "delegation", "N": "nameerror",
+                                                         "X": "outside-apex"}.get(r[0], "other")
+        RESULT_STATS[k] = RESULT_STATS.get(k, 0) + 1
     feats = ""
     if any(r[0] == "D" for r in res):
         feats += "D"
@@ -561,15 +565,13 @@ def generate(rng, tier):
 
 
 def extra(ctx):
-    return [], {"lookups": LOOKUPS[0]}
+    return [], {"lookups": LOOKUPS[0], "lookup_results": dict(RESULT_STATS),
+                "note": "every lookup is also compared with the extracted flat specification (flat_resolve) inside the model "
+                        "driver when the zone satisfies D1; a difference would show as a '!SPEC' suffix and a disagreement"}
 
 
-THEOREMS_ALL = []
-try:
-    _p = os.path.join(core.COQ, "Properties", "C02.v")
-    import re as _re
-    with open(_p) as _f:
-        THEOREMS_ALL = _re.findall(r"^Theorem\s+(C02_\w+)", _f.read(), _re.M)
-except OSError:
-    pass
-THEOREMS = THEOREMS_ALL
+THEOREMS = ["C02_resolve_refines_flat", "C02_flat_of_ops_sound", "C02_flat_of_ops_complete", "C02_insert_preserves",
+            "C02_resolve_no_panic", "C02_resolve_R", "C02_owner_is_query_name", "C02_ent_and_apex_give_empty_answer",
+            "C02_apex_gives_empty_answer", "C02_nameerror_only_if_absent", "C02_records_are_zone_records",
+            "C02_ns_question_at_cut_answered_directly", "C02_referral_at_or_beneath_cut", "C02_existing_name_classified",
+            "C02_missing_name_from_wildcard", "C02_example_wildcard_synthesis"]
